@@ -374,6 +374,67 @@ def run(ctx):
                 viol('past-end/wrong-exception:%s/%s' % (type(e).__name__, kind),
                      'reading past the end with %s raised %s instead of BitReadError' % (kind, type(e).__name__),
                      dict(kind=kind, left=left, need=need), exc=e)
+    # ------------------------------------------------------------- several readers / writers in use at the same time
+    # every reader is a cursor of its own over the bytes it was given - also when another reader over equal bytes (the same
+    # object or an equal copy) is opened or read in between; writers are independent of each other
+    for k in range(40 if ctx.quick else 400):
+        nbytes = rng.randint(3, 24)
+        data = bytes(rng.getrandbits(8) for _ in range(nbytes))
+        bits = ''.join(ubits(c, 8) for c in data)
+        readers = []
+        case = dict(kind='interleaved-readers', hex=data.hex())
+        ctx.count('interleaved_reader_cases')
+        ctx.evaluated(('interleaved', data.hex()), True)
+        try:
+            steps = []
+            for step in range(rng.randint(4, 14)):
+                if len(readers) < 3 and (not readers or rng.random() < 0.3):
+                    src = data if rng.random() < 0.5 else bytes(bytearray(data))
+                    readers.append([get_bit_reader(src), 0])
+                    steps.append('open')
+                    continue
+                j = rng.randrange(len(readers))
+                r, pos = readers[j]
+                left = len(bits) - pos
+                if left <= 0:
+                    continue
+                n = rng.randint(1, min(left, 24))
+                kind = rng.choice(['uint', 'bin', 'bool'])
+                if kind == 'bool':
+                    n = 1
+                    got, want = r.read_bool(), bits[pos] == '1'
+                elif kind == 'bin':
+                    got, want = r.read_bin(n), bits[pos:pos + n]
+                else:
+                    got, want = r.read_uint(n), int(bits[pos:pos + n], 2)
+                readers[j][1] = pos + n
+                steps.append('r%d:%s:%d' % (j, kind, n))
+                if got != want or r.get_pos() != pos + n:
+                    viol('readers/interleaved/%s' % kind, 'reader %d of %d over the same bytes read %r at bit %d (expected %r), position %d '
+                         '(expected %d) after %r' % (j, len(readers), got, pos, want, r.get_pos(), pos + n, steps[-8:]), dict(case, steps=steps))
+                    break
+        except Exception as e:
+            viol('readers/interleaved/exception:%s' % type(e).__name__, 'interleaved readers raised %r' % (e,), case, exc=e)
+        # two writers filled alternately
+        try:
+            w1, w2 = get_bit_writer(), get_bit_writer()
+            m1 = m2 = ''
+            for step in range(rng.randint(2, 10)):
+                n = rng.randint(1, 30)
+                v = rng.getrandbits(n)
+                if rng.random() < 0.5:
+                    w1.write_uint(v, n)
+                    m1 += ubits(v, n)
+                else:
+                    w2.write_uint(v, n)
+                    m2 += ubits(v, n)
+            pos_ok = w1.get_pos() == len(m1) and w2.get_pos() == len(m2)
+            f1, f2 = finish(w1, m1), finish(w2, m2)
+            if not pos_ok or w1.to_bytes() != tobytes(f1) or w2.to_bytes() != tobytes(f2):
+                viol('writers/interleaved', 'two writers filled alternately hold something else than what each was given', case)
+        except Exception as e:
+            viol('writers/interleaved/exception:%s' % type(e).__name__, 'interleaved writers raised %r' % (e,), case, exc=e)
+
     # ------------------------------------------------------------- text that has no octet form
     # A character field given as text with a character beyond U+00FF cannot be written as it is.  The statement leaves two
     # outcomes: the value is refused ("values that do not fit are refused"), or it is accepted and then the field still has
